@@ -249,8 +249,11 @@ def predicates(case, impl):
             last = max((i for i, x in enumerate(p) if x == th), default=None)
             if last is None or last == len(p) - 1:
                 continue  # plateau truncated by t_tot
+            # tolerance: one step for the ramp before the hold and one for the hold
+            # itself (in floating point the last ramp sample can round onto the hold
+            # temperature, e.g. L/dt = 180.00000000000003 gives 181 ramp samples)
             lo = d - 2 * dt - 1e-9 * max(1, d)
-            hi = d + dt + 1e-9 * max(1, d)
+            hi = d + 2 * dt + 1e-9 * max(1, d)
             if not (lo <= (m - 1) * dt <= hi):
                 out.append(Failure(clause="profile_dwell", key=f"profile_dwell|{site}|",
                                    detail=f"hold {th} for {d}: {m} samples at dt={dt}"))
